@@ -163,6 +163,40 @@ pub fn sample_json(case: &Case, obs: &Observation) -> serde_json::Value {
    })
 }
 
+/// Wall-clock watchdog: an execution that spins without ever reaching a scheduling point (e.g. a
+/// cyclic pointer structure walked forever) cannot be stopped by the step budget. If one execution
+/// takes longer than `HANG_LIMIT_S` the process writes the case to `<out>.hang.json` and exits 3.
+pub const HANG_LIMIT_S: u64 = 90;
+pub static REPLAY_FILE: std::sync::Mutex<String> = std::sync::Mutex::new(String::new());
+static CURRENT: std::sync::Mutex<Option<(std::time::Instant, String)>> = std::sync::Mutex::new(None);
+
+pub fn start_watchdog(hang_file: Option<std::path::PathBuf>) {
+   std::thread::spawn(move || loop {
+      std::thread::sleep(std::time::Duration::from_millis(500));
+      let cur = CURRENT.lock().unwrap().clone();
+      if let Some((t0, case_json)) = cur {
+         if t0.elapsed().as_secs() >= HANG_LIMIT_S {
+            match &hang_file {
+               Some(f) => {
+                  let _ = std::fs::write(f, case_json);
+                  std::process::exit(3);
+               },
+               None => {
+                  println!("violation: no-termination: the execution made no progress for {} s of wall clock (no scheduling point reached)", HANG_LIMIT_S);
+                  println!("REPLAY-JSON {}", serde_json::json!({"class": "no-termination", "detail": "wall-clock watchdog: execution spins without reaching a scheduling point", "hash": 0}));
+                  let prop = serde_json::from_str::<serde_json::Value>(&case_json).ok().and_then(|j| j.get("check").and_then(|c| c.as_str()).map(|s| s.to_string())).unwrap_or_default();
+                  println!("VIOLATION property={} replay={}", prop, REPLAY_FILE.lock().unwrap().clone());
+                  std::process::exit(1);
+               },
+            }
+         }
+      }
+   });
+}
+
+pub fn watch(case: &Case) { *CURRENT.lock().unwrap() = Some((std::time::Instant::now(), serde_json::to_string(case).unwrap())); }
+pub fn unwatch() { *CURRENT.lock().unwrap() = None; }
+
 pub fn run_range(check: &str, thorough: bool, seed: u64, from: u64, to: u64, gen: &dyn Fn(&str, bool, u64, u64) -> Option<Case>) -> Summary {
    let t0 = std::time::Instant::now();
    let mut sum = Summary { check: check.to_string(), from, to, ..Default::default() };
@@ -174,7 +208,9 @@ pub fn run_range(check: &str, thorough: bool, seed: u64, from: u64, to: u64, gen
    for index in from..to {
       let Some(case) = gen(check, thorough, seed, index) else { continue };
       assert_eq!(case.proc_first_pool, first_pool, "a chunk must not span process configurations");
+      watch(&case);
       let obs = execute(&case);
+      unwatch();
       account(&mut sum, &case, &obs);
       if sum.samples.len() < 2 && obs.sched.preemptions > 0 {
          sum.samples.push(sample_json(&case, &obs));
